@@ -214,6 +214,25 @@ func judge(r *vh.Run, res *result) {
 		}
 		return out
 	}
+	touching := func(p int32, off int64) []string {
+		var out []string
+		for _, b := range blog {
+			hit := false
+			for _, a := range b.Acks[p] {
+				hit = hit || (a.First <= off && off <= a.Last)
+			}
+			for _, a := range b.Acq[p] {
+				hit = hit || (a.First <= off && off <= a.Last)
+			}
+			if hit {
+				out = append(out, b.String())
+			}
+		}
+		if len(out) > 40 {
+			out = out[len(out)-40:]
+		}
+		return out
+	}
 	wit := func(detail string, extra map[string]any) map[string]any {
 		m := map[string]any{"mode": mode, "plan": pl, "detail": detail, "fired": res.Fired, "happened": res.Happened}
 		for k, v := range extra {
@@ -402,10 +421,13 @@ func judge(r *vh.Run, res *result) {
 			if f.Status == 1 || f.Status == 3 {
 				nConfirmed++
 				for _, a := range acqs[d.P] {
-					if a.Clock > fl.Ret && a.R.First <= d.Offset && d.Offset <= a.R.Last {
+					// a later acquisition: the fetch arrived after the confirming FlushAcks returned, or (a parked
+					// fetch acquires after it arrived) the delivery count went up in a run without session resets
+					later := a.Clock > fl.Ret || (kills == 0 && int32(a.R.DC) > d.DC)
+					if later && a.R.First <= d.Offset && d.Offset <= a.R.Last {
 						r.Violation("record delivered again after its accept/reject was confirmed without error",
 							wit(fmt.Sprintf("member %s partition %d offset %d (delivery count %d) status %d decided at clock %d (auto=%v), confirmed by FlushAcks returning nil at %d; acquired again (delivery count %d) by %s in a ShareFetch that arrived at clock %d", m.Name, d.P, d.Offset, d.DC, f.Status, f.At, f.Auto, fl.Ret, a.R.DC, a.Member, a.Clock),
-								map[string]any{"delivery": d, "reacquired_in": a.Req.String(), "requests": tail(m.Name, d.P, fl.Ret), "callbacks": cbTail(m, fl.Ret)}))
+								map[string]any{"delivery": d, "reacquired_in": a.Req.String(), "requests_touching_offset": touching(d.P, d.Offset), "requests": tail(m.Name, d.P, fl.Ret), "callbacks": cbTail(m, fl.Ret)}))
 						break
 					}
 				}
@@ -515,7 +537,8 @@ func judge(r *vh.Run, res *result) {
 			if pl.VT && res.DrainIdle && len(res.Inconcl) == 0 && int(d.DC) < dcLimit-1 {
 				again := false
 				for _, a := range acqs[d.P] {
-					if a.Clock > m.CloseCall && a.R.First <= d.Offset && d.Offset <= a.R.Last {
+					// a parked fetch acquires after it arrived: the delivery count tells the order
+					if (a.Clock > m.CloseCall || int32(a.R.DC) > d.DC) && a.R.First <= d.Offset && d.Offset <= a.R.Last {
 						again = true
 					}
 				}
@@ -523,7 +546,7 @@ func judge(r *vh.Run, res *result) {
 				if !again {
 					r.Violation("record left unacknowledged at Close was never delivered again",
 						wit(fmt.Sprintf("member %s partition %d offset %d (delivery count %d): Close called at clock %d; no member acquired the offset afterwards although a draining member polled until idle", m.Name, d.P, d.Offset, d.DC, m.CloseCall),
-							map[string]any{"delivery": d, "requests": tail(m.Name, d.P, res.EndClock)}))
+							map[string]any{"delivery": d, "requests_touching_offset": touching(d.P, d.Offset), "requests": tail(m.Name, d.P, res.EndClock)}))
 				}
 			} else if !pl.VT {
 				r.Count("rt_close_redelivery_not_judged", 1)
